@@ -212,8 +212,20 @@ func (svr *Service) Run(ctx context.Context) error {
 	return nil
 }
 
+// getControl returns the current control, nil once the service has been stopped.
+func (svr *Service) getControl() *Control {
+	svr.ctlMu.RLock()
+	defer svr.ctlMu.RUnlock()
+	return svr.ctl
+}
+
 func (svr *Service) keepControllerWorking() {
-	<-svr.ctl.Done()
+	// The service may be stopped (which clears svr.ctl) before this goroutine gets to run.
+	ctl := svr.getControl()
+	if ctl == nil {
+		return
+	}
+	<-ctl.Done()
 
 	// There is a situation where the login is successful but due to certain reasons,
 	// the control immediately exits. It is necessary to limit the frequency of reconnection in this case.
@@ -223,8 +235,8 @@ func (svr *Service) keepControllerWorking() {
 		// loopLoginUntilSuccess is another layer of loop that will continuously attempt to
 		// login to the server until successful.
 		svr.loopLoginUntilSuccess(20*time.Second, false)
-		if svr.ctl != nil {
-			<-svr.ctl.Done()
+		if ctl := svr.getControl(); ctl != nil {
+			<-ctl.Done()
 			return false, errors.New("control is closed and try another loop")
 		}
 		// If the control is nil, it means that the login failed and the service is also closed.
